@@ -1,7 +1,98 @@
 package main
 
-import "verif/gen/tsrc"
+import (
+	"strings"
 
-func family(prop string, ki *tsrc.KeyInfo) string { return ki.Class }
+	"verif/gen/tsrc"
+)
 
-func anchor(f string) string { return "parser/v2/types.go" }
+// family groups canonical witnesses by root cause (development aid: the
+// grouping is descriptive, the checks match on keys only).
+func family(prop string, ki *tsrc.KeyInfo) string {
+	k := ki.Key
+	has := func(subs ...string) bool {
+		for _, s := range subs {
+			if !strings.Contains(k, s) {
+				return false
+			}
+		}
+		return true
+	}
+	switch {
+	case has("title=", "&") && !has("title={"), has(`title='`):
+		return "attr-reescape"
+	case has("templ t(") && has("//") || has("templ t(") && has("/*") || has("templ /*"):
+		return "comment-in-signature"
+	case strings.HasPrefix(k, "file=") && has("script "):
+		return "script-params-reformatted"
+	case strings.HasPrefix(k, "file=") && has("css "):
+		return "trailing-comment-growth"
+	case strings.HasPrefix(k, "file=") || has("file-header"), has("file-no-package"):
+		return "file-without-package"
+	case has("//") && (ki.Class == "reject:parse" || ki.Class == "error"):
+		return "line-comment-swallows-closer"
+	case has("b=legacycall") && has("a=text"):
+		return "legacy-call-after-text"
+	case has(" if b {") && strings.HasPrefix(k, "src=\"<"):
+		return "single-line-conditional-attribute"
+	case prop == "C09" && strings.HasPrefix(k, "ctx=div") || prop == "C09" && strings.HasPrefix(k, "ctx=span"):
+		return "single-line-element-non-trailer-child"
+	case has("/* c */ s }"), has("/* c */ b }"):
+		return "leading-comment-in-expression"
+	case has("/* c */ }") || has("expr-comment") || has("// c\\n"):
+		return "trailing-comment-growth"
+	case has("{! c( ) }") || has("legacycall-"):
+		return "legacy-call-not-gofmted"
+	case has("gocode-two-statements") || has("{{ v := 1; u := 2 }}"):
+		return "gocode-two-statements"
+	case has("={ ") && has(",") && has("\\n"):
+		return "multiline-attr-expression"
+	case has("... }"):
+		return "variadic-string-expression"
+	case prop == "C08" && (has("ctx=if") || has("ctx=call") || has("ctx=for") || has("ctx=case")) && has("sep=none"):
+		return "F2-newline-after-non-trailer-in-body"
+	case prop == "C08" && (has("b=if") || has("b=for") || has("b=switch") || has("b=spanml") || has("b=divml")):
+		return "F1-inline-item-then-block"
+	case prop == "C08" && has("a=iftext"):
+		return "F3-body-end-text-then-inline"
+	}
+	return "other:" + ki.Class
+}
+
+func anchor(f string) string {
+	switch f {
+	case "attr-reescape":
+		return "parser/v2/types.go: ConstantAttribute.String (value written back unescaped; parser/v2/elementparser.go: constantAttributeParser unescapes it)"
+	case "comment-in-signature":
+		return "parser/v2/types.go: formatFunctionArguments / HTMLTemplate.Write"
+	case "script-params-reformatted":
+		return "parser/v2/types.go: ScriptTemplate.Write (formatFunctionArguments) vs generator/generator.go: writeScript (raw parameter text)"
+	case "file-without-package":
+		return "parser/v2/templatefile.go: TemplateFileParser.Parse (header lines when no package clause) / parser/v2/types.go: TemplateFile.Write"
+	case "line-comment-swallows-closer":
+		return "parser/v2/types.go: GoCode.Write, ExpressionAttribute.Write (closing brace written on the line of a // comment)"
+	case "legacy-call-after-text":
+		return "parser/v2/types.go: CallTemplateExpression.Write (rewrites {! x } to @x without separating it from preceding text)"
+	case "single-line-conditional-attribute":
+		return "parser/v2/types.go: ConditionalAttribute.Write / Element.Write (IndentAttrs decided from the source layout, conditional attributes always written multi-line)"
+	case "single-line-element-non-trailer-child":
+		return "parser/v2/types.go: writeNodes (trailing defaults to SpaceVertical for nodes that are not WhitespaceTrailers, also inside single-line elements)"
+	case "leading-comment-in-expression":
+		return "parser/v2/types.go: ExpressionAttribute.formatExpression (gofmt breaks the line after a leading comment)"
+	case "trailing-comment-growth":
+		return "parser/v2/goexpression/parse.go: SliceArgs (expression text captured with trailing comment and padding) / parser/v2/types.go: StringExpression.Write"
+	case "legacy-call-not-gofmted":
+		return "parser/v2/types.go: CallTemplateExpression.Write (expression not gofmt'ed, TemplElementExpression.Write gofmt's it on the next pass)"
+	case "gocode-two-statements":
+		return "parser/v2/types.go: GoCode.Write (gofmt splits the statements, Multiline flag comes from the source)"
+	case "multiline-attr-expression":
+		return "parser/v2/types.go: ExpressionAttribute.formatExpression"
+	case "F2-newline-after-non-trailer-in-body":
+		return "parser/v2/types.go: writeNodes (newline after every node without trailing-space information) + generator/generator.go: writeNodes (whitespace nodes rendered in control-flow / call bodies)"
+	case "F1-inline-item-then-block":
+		return "parser/v2/types.go: writeNodes/nextNodeIsBlock (statement or multi-line element moved to a new line) + generator/generator.go: writeNode (trailing space emitted before inline next node)"
+	case "F3-body-end-text-then-inline":
+		return "parser/v2/types.go: writeNodes (newline after the last node of a body) + generator/generator.go: writeIfExpression (next node passed into the body)"
+	}
+	return "parser/v2/types.go"
+}
